@@ -66,7 +66,7 @@ fn generic_values(rng: &mut Rng) -> String {
     rng.pick(&[
         " ", "abc", "-1", "+7", "99999999999999999999999", "18446744073709551615", "18446744073709551616", "9223372036854775808", "-9223372036854775809",
         "True", "FALSE", "null", "yes", "AA==", "AAAAAAAAAAAAAAAAAAAAAA==", "AAAAAAAAAAAAAAAAAAAAAAA=", "%%%%", "#12", "#GGGGGG", "#1234567", "#12345",
-        "é", "0x10", "1e3", "１２", "\u{feff}1",
+        "#1\u{e9}234", "#12\u{e9}45", "#123\u{e9}5", "#\u{e9}2345", "#\u{20ac}345", "#12345\u{e9}", "\u{e9}123456", "#ＡＢ12", "é", "0x10", "1e3", "１２", "\u{feff}1",
     ])
     .to_string()
 }
@@ -116,8 +116,12 @@ pub fn run(ctx: &mut Ctx) {
                     (format!("{}{}{}", &base[..l.0], v, &base[l.1..]), format!("time-text:{}", l.2))
                 }
                 3 | 4 if !lv.is_empty() => {
-                    let l = rng.pick(&lv);
-                    let v = if rng.chance(1, 3) { time_values(&mut rng) } else { generic_values(&mut rng) };
+                    // every third time a colour leaf when there is one (7-byte strings whose bytes are not all ASCII matter there)
+                    let colours: Vec<&(usize, usize, String)> = lv.iter().filter(|l| l.2.ends_with("Color")).collect();
+                    let l = if !colours.is_empty() && rng.chance(1, 3) { *rng.pick(&colours) } else { rng.pick(&lv) };
+                    let v = if l.2.ends_with("Color") && rng.chance(2, 3) {
+                        rng.pick(&["#1\u{e9}234", "#12\u{e9}45", "#123\u{e9}5", "#\u{e9}2345", "#\u{20ac}345", "#12345\u{e9}", "\u{e9}123456", "#12345", "#1234567", "#GGGGGG", "#+12345", "# 12345", "123456#"]).to_string()
+                    } else if rng.chance(1, 3) { time_values(&mut rng) } else { generic_values(&mut rng) };
                     (format!("{}{}{}", &base[..l.0], v, &base[l.1..]), format!("leaf-text:{}", l.2))
                 }
                 5 => {
